@@ -40,20 +40,28 @@ from vlib.runner import Discard, Violation
 PROPERTY = "C10"
 LEVEL = "exploration"
 RULE = (
-    "edit: Hypothesis-generated cases {encoding in utf-8/euc-jp/iso8859-1, str or bytes, caption <=8 chars, "
+    "edit: Hypothesis-generated cases {encoding in utf-8/euc-jp/iso8859-1/gbk/big5/uhc (one narrow, utf-8, and "
+    "both double-byte families set_encoding() lists: EUC with trail bytes >= 0xA1 only, and GBK/Big5/UHC whose "
+    "trail byte may be an ASCII byte 0x40..0x7E or 0x80..0xA0 - three two-column characters per trail-byte class "
+    "that the codec has), str or bytes, caption <=8 chars, "
     "text <=14 chars (ASCII, double-width, combining, newline, space; only characters representable in the "
     "encoding whose encoded length equals their width in wide mode), width 1..20, wrap space/any/clip, align, "
     "multiline, allow_tab, mask, initial cursor, op list <=40 (quick) / <=80 (thorough) of printable keys, "
     "left/right/up/down/home/end, backspace, delete, enter, tab, unrelated keys, button-1 clicks on any cell}; "
     "numeric: IntEdit, IntegerEdit(base 2..36, allow_negative), FloatEdit(separator, allow_negative, "
-    "preserve_significance) with keys from digits, letters, '-', '.', ',', characters whose .upper() is in "
+    "preserve_significance; the options passed as the modern keywords, as the deprecated but still accepted "
+    "decimalSeparator=/preserveSignificance= keywords, or positionally) "
+    "with keys from digits, letters, '-', '.', ',', characters whose .upper() is in "
     "the alphabet, navigation and clicks. Every step is compared with the reference editor / display map / "
     "signal chain. Non-trivial (edit): caption+text need >= 2 display rows or contain a double-width/combining "
     "character, and the history has an up/down move or inserts/deletes while such a character is present; "
     "(numeric): the history has a key outside the ASCII alphabet of the widget or a '-' and >= 3 keys."
 )
 ASSUMPTIONS = [
-    "vlib.widths (wcwidth table + codec structure) is the reference for character boundaries and widths",
+    "vlib.widths (wcwidth table + codec structure) is the reference for character boundaries and widths; in a "
+    "double-byte encoding a byte >= 0x81 followed by a byte >= 0x40 is one two-column character (texts are built "
+    "from whole encoded characters, so no stray lead byte ever precedes an ASCII byte)",
+    "Python's gbk / big5 / uhc (cp949) codecs define which characters exist in those encodings",
     "the widget's own layout structure (get_line_translation) is taken as the display; C03 checks the layout",
     "keys are delivered as str (urwid's input layer always produces str keys), one code point per printable key",
     "the widget is rendered with focus=True between keys (an Edit only receives keys while in focus)",
@@ -65,12 +73,46 @@ UNRELATED = ["f5", "ctrl x", "esc", "page up", "page down", "shift f1", "meta a"
 
 # characters per encoding: representable, and in wide mode encoded length == column width
 ASCII = list("abcxyz XYZ019-.,;")
+
+
+def _dbcs_sample(enc, first, last):
+    """Two-byte, two-column characters of a double-byte encoding, three per *trail-byte class* (first,
+    middle and last of the class in code point order).  The classes are what distinguishes the
+    double-byte families urwid.set_encoding() lists: EUC (euc-jp/kr/cn) trail bytes are all >= 0xA1,
+    GBK / Big5 / UHC also use 0x40..0x7E (ASCII letters and punctuation) and 0x80..0xA0."""
+    classes = {"ascii-trail": [], "mid-trail": [], "high-trail": []}
+    for cp in range(first, last + 1):
+        ch = chr(cp)
+        try:
+            b = ch.encode(enc)
+        except UnicodeEncodeError:
+            continue
+        if len(b) != 2 or b[0] < 0x81 or widths.char_width(ch) != 2:
+            continue
+        t = b[1]
+        if 0x40 <= t <= 0x7E:
+            classes["ascii-trail"].append(ch)
+        elif 0x80 <= t <= 0xA0:
+            classes["mid-trail"].append(ch)
+        elif t >= 0xA1:
+            classes["high-trail"].append(ch)
+    out = []
+    for lst in classes.values():
+        if lst:
+            out += [lst[0], lst[len(lst) // 2], lst[-1]]
+    return out
+
+
 ALPHA = {
     "utf-8": ASCII + ["é", "ß", "あ", "漢", "Ａ", "́", "̈", "😀"],
     "euc-jp": ASCII + ["あ", "漢", "Ａ", "！"],
     "iso8859-1": ASCII + ["é", "ß", "ñ", "Ü"],
+    # double-byte encodings whose trail byte may be an ASCII byte (CJK ideographs / Hangul syllables)
+    "gbk": ASCII + _dbcs_sample("gbk", 0x4E00, 0x9FFF),
+    "big5": ASCII + _dbcs_sample("big5", 0x4E00, 0x9FFF),
+    "uhc": ASCII + _dbcs_sample("uhc", 0xAC00, 0xD7A3),
 }
-ENCODINGS = ["utf-8", "euc-jp", "iso8859-1"]
+ENCODINGS = ["utf-8", "euc-jp", "iso8859-1", "gbk", "big5", "uhc"]
 
 
 def _has_special(s: str) -> bool:
@@ -539,8 +581,20 @@ def check_numeric(case):
             al = DIGITS36[: case["base"]]
             spec = NumSpec(al + al.lower(), case["allow_negative"])
         elif kind == "FloatEdit":
-            edit = numedit.FloatEdit(case["caption"], default, preserve_significance=case["preserve"],
-                                     decimal_separator=case["separator"], allow_negative=case["allow_negative"])
+            # the three supported ways of passing the options (numedit.FloatEdit.__init__: the camelCase
+            # names are deprecated, still accepted, and are also the 3rd and 4th positional parameters)
+            spelling = case.get("spelling", "keyword")
+            if spelling == "keyword":
+                edit = numedit.FloatEdit(case["caption"], default, preserve_significance=case["preserve"],
+                                         decimal_separator=case["separator"], allow_negative=case["allow_negative"])
+            elif spelling == "legacy-keyword":
+                edit = numedit.FloatEdit(case["caption"], default, preserveSignificance=case["preserve"],
+                                         decimalSeparator=case["separator"], allow_negative=case["allow_negative"])
+            elif spelling == "positional":
+                edit = numedit.FloatEdit(case["caption"], default, case["preserve"], case["separator"],
+                                         allow_negative=case["allow_negative"])
+            else:
+                raise AssertionError(spelling)
             spec = NumSpec("0123456789" + case["separator"], case["allow_negative"])
         else:
             raise AssertionError(kind)
@@ -630,6 +684,7 @@ def numeric_cases(draw, max_ops):
         case["separator"] = sep
         case["allow_negative"] = neg
         case["preserve"] = draw(st.booleans())
+        case["spelling"] = draw(st.sampled_from(["keyword", "keyword", "legacy-keyword", "positional"]))
         ip = draw(st.text(st.sampled_from("0123456789"), min_size=1, max_size=4))
         if ip.strip("0") == "":
             ip += "1"  # keeps str(Decimal(...)) out of exponent notation
@@ -684,6 +739,8 @@ def _num_classes(case):
         out.append("numeric:allow_negative")
     if case.get("base") not in (None, 10):
         out.append("numeric:base!=10")
+    if case.get("spelling", "keyword") != "keyword":
+        out.append("numeric:FloatEdit options in the deprecated spelling")
     if any(o[0] == "k" and o[1] in NUM_KEYS_UPPER for o in case["ops"]):
         out.append("numeric:upper()-lands-in-alphabet key")
     return out
